@@ -96,6 +96,15 @@ func init() {
 					}
 					ts = f
 				}
+				// shapes with an empty identifier are rejected everywhere (C01/C18 use them); a pair
+				// harness that assumes acceptance would be vacuous on them
+				var nonEmpty []string
+				for _, t := range ts {
+					if !strings.Contains(t, "..") && !strings.Contains(t, "-.") {
+						nonEmpty = append(nonEmpty, t)
+					}
+				}
+				ts = nonEmpty
 				if tier == "thorough" {
 					ts = thin(ts, 60)
 				} else {
